@@ -1,8 +1,9 @@
 """C07 - bracketing root finders return a root inside the bracket and terminate.
-E1: lattice designs of bisection (MC_Bisection, IEEE signed zeros), of ITP (MC_Itp: any trial point the projection
+E1: lattice designs of bisection (MC_Bisect, IEEE signed zeros as function values), of ITP (MC_Itp: any trial point the projection
     step admits) and of Brent (MC_Brent: the code's formulas, and ANY interpolated point) are model-checked against the contract:
     abscissae inside, sign change kept, iteration bounds, result near the root.
-E3 design level: every abscissa of every real brent() run is reproduced bit for bit by module Brent over doubles (Trace_Brent).
+E3 design level: every abscissa of every real brent() and bisection() run is reproduced bit for bit by the same modules
+    (Brent, Bisect) instantiated over doubles (Trace_Brent, Trace_Bisect).
 E2: TLC (Gen_C07) enumerates dyadic lattice brackets x root positions x tolerances x sign x solver.
 E3: seeded functions with known root sets (polynomial, exponential, trigonometric, flat near the root, several roots),
     brackets in either order / asymmetric / far from zero, tol 1e-12..1e-2, ITP parameters over and just outside their
@@ -108,15 +109,18 @@ def judge(ctx, cases):
         slim.append(r2)
     viols = fncommon.validate(ctx, slim, "Val_C07", "brk", nshards=12)
     # design level: every abscissa of every real brent() run against module Brent over doubles (drift, not a violation)
-    keys = ("id", "solver", "a", "b", "tol", "evals", "n", "ret", "x")
-    brows = [{k: r[k] for k in keys} for r in rows if r["solver"] == "brent"]
-    ndrift = len(ctx.drift)
-    fncommon.validate(ctx, brows, "Trace_Brent", "brt", nshards=6)
-    ctx.traces -= len(brows)            # counted once, above
-    st = [x for x in ctx.notes.pop("_stat", []) if x and x[0] == "brent_runs_explained"]
-    ctx.notes["brent_runs_validated_against_design"] = ctx.notes.get("brent_runs_validated_against_design", 0) + len(brows)
-    ctx.notes["brent_runs_explained_bit_for_bit"] = ctx.notes.get("brent_runs_explained_bit_for_bit", 0) + sum(x[1] for x in st)
-    ctx.notes["brent_runs_drifted"] = ctx.notes.get("brent_runs_drifted", 0) + (len(ctx.drift) - ndrift)
+    keys = ("id", "solver", "a", "b", "tol", "n_max", "evals", "n", "ret", "x")
+    for solver, module in (("brent", "Trace_Brent"), ("bisection", "Trace_Bisect")):
+        brows = [{k: r[k] for k in keys} for r in rows if r["solver"] == solver]
+        if not brows:
+            continue
+        ndrift = len(ctx.drift)
+        fncommon.validate(ctx, brows, module, "dl" + solver, nshards=6)
+        ctx.traces -= len(brows)            # counted once, above
+        st = [x for x in ctx.notes.pop("_stat", []) if x and x[0] == solver + "_runs_explained"]
+        for key, v in (("validated_against_design", len(brows)), ("explained_bit_for_bit", sum(x[1] for x in st)),
+                       ("drifted", len(ctx.drift) - ndrift)):
+            ctx.notes["%s_runs_%s" % (solver, key)] = ctx.notes.get("%s_runs_%s" % (solver, key), 0) + v
     for c, r in zip(cases, rows):
         ctx.count_case(brief(c), r["n"] >= 5 and r["ret"] == "ok")
     for c, r in list(zip(cases, rows))[:: max(1, len(cases) // 3)][:3]:
@@ -130,7 +134,7 @@ def judge(ctx, cases):
 def run(ctx):
     rng = random.Random(ctx.seed)
     try:
-        m = vlib.tlc("MC_Bisection", workers=4, timeout=900, deque=False)
+        m = vlib.tlc("MC_Bisect", workers=4, timeout=900, deque=False)
         ctx.add_tlc(m, e1=True)
         m = vlib.tlc("MC_Itp", workers=4, timeout=900, deque=False, xmx="6g")
         ctx.add_tlc(m, e1=True)
